@@ -532,6 +532,38 @@ let id_mutual st env : item list * env =
   let k = Rng.range st.rng 0 25 in
   ([prb (call a [ei k]); prb (call b [ei (k + 1)])], env)
 
-let all = [ "id_order", id_order; "id_alias", id_alias; "id_counter", id_counter; "id_adder", id_adder;
+(* ---- pipes --------------------------------------------------------------------------------------------- *)
+(* calls whose callee sits in a frame slot (function-typed parameter with a neighbour, nested
+   function, let-bound function) with two or three arguments: pp.ml spells many of them
+   `(a, b) : (int, int) |> f(c)` *)
+let id_pipe st env : item list * env =
+  let t3 = TFun ([TInt; TInt; TInt], TInt) in
+  let a3 = fresh st and m3 = fresh st and ind = fresh st in
+  let p () = fresh st in
+  let a = p () and b = p () and c = p () in
+  let a' = p () and b' = p () and c' = p () in
+  let f = p () and g = p () and x = p () and y = p () in
+  flag st "pipe_probe";
+  let fa = fdef a3 [(a, false, TInt); (b, false, TInt); (c, false, TInt)] TInt
+      [IExpr (bin Add (ev a) (bin Add (bin Mul (ev b) (ei 10)) (bin Mul (ev c) (ei 100))))] in
+  let fm = fdef m3 [(a', false, TInt); (b', false, TInt); (c', false, TInt)] TInt
+      [IExpr (bin Sub (bin Mul (ev a') (ev b')) (ev c'))] in
+  let k1 = lit st and k2 = lit st in
+  let find = fdef ind [(f, false, t3); (g, false, t3); (x, false, TInt); (y, false, TInt)] TInt
+      [IExpr (bin Sub (ECall (ev f, [ev x; ev y; k1])) (bin Mul (ECall (ev g, [ev y; k2; ev x])) (ei 3)))] in
+  let h = fresh st and hp = p () and hq = p () and cap = fresh st in
+  let fh = fdef h [(hp, false, TInt); (hq, false, TInt)] TInt [IExpr (bin Add (bin Sub (bin Mul (ev hp) (ei 10)) (ev hq)) (ev cap))] in
+  let va3 = mkv ~fcost:8 ~firstclass:true ~fvars:[false; false; false] a3 t3 BFunc env.lvl in
+  let vm3 = mkv ~fcost:8 ~firstclass:true ~fvars:[false; false; false] m3 t3 BFunc env.lvl in
+  let vind = mkv ~fcost:30 ~fvars:[false; false; false; false] ind (TFun ([t3; t3; TInt; TInt], TInt)) BFunc env.lvl in
+  let vh = mkv ~fcost:8 ~firstclass:true ~fvars:[false; false] h (TFun ([TInt; TInt], TInt)) BFunc env.lvl in
+  let e1 = filler st env and e2 = filler st env in
+  let items = [IFunc fa; IFunc fm; IFunc find;
+               pr (call ind [ev a3; ev m3; e1; e2]); pr (call ind [ev m3; ev a3; lit st; lit st]);
+               let_ cap (lit st); IFunc fh; pr (call h [filler st env; lit st]);
+               pr (call a3 [call h [lit st; lit st]; lit st; call m3 [lit st; lit st; lit st]])] in
+  (items, bind (bindv (bind (bind (bind env va3) vm3) vind) cap TInt BLet) vh)
+
+let all = [ "id_pipe", id_pipe; "id_order", id_order; "id_alias", id_alias; "id_counter", id_counter; "id_adder", id_adder;
             "id_loopcap", id_loopcap; "id_reccap", id_reccap; "id_compose", id_compose; "id_catch", id_catch;
             "id_shadow", id_shadow; "id_agg", id_agg; "id_tail", id_tail; "id_mutual", id_mutual ]
